@@ -1,0 +1,25 @@
+//go:build verif
+
+// Machine-checked contracts for govc (see /verif/DESIGN.md). Comments only;
+// compiled only with the build tag "verif".
+
+package extractors
+
+// C04: what drives the fallback between authenticators is the error kind. The extract strategies are
+// the places that decide "no usable credentials of this kind in the request": whenever one of them
+// fails, it reports an argument-kind error.
+//@ iface (AuthDataExtractStrategy).GetAuthData
+//@   props C04
+//@   logged gad
+//@   ensures ret1 != nil ==> Is(ret1, heimdall.ErrArgument)
+
+//@ func (HeaderValueExtractStrategy).GetAuthData
+//@   props C04
+//@   logged gad
+//@   ensures ret1 != nil ==> Is(ret1, heimdall.ErrArgument)
+
+// every collected error is of the argument kind, and so is the chain built from them
+//@ func (CompositeExtractStrategy).GetAuthData
+//@   props C04
+//@   loop 0 invariant forall k int :: 0 <= k && k < len(errors) ==> Is(errors[k], heimdall.ErrArgument)
+//@   loop 1 invariant Is(iface(err), heimdall.ErrArgument)
